@@ -75,22 +75,21 @@ Proof. exact pp_pairing_chunked_reported. Qed.
 Print Assumptions C04_pairing_under_pipelining.
 
 (* ---- INTERLEAVED delivery: the operation list is any mixture of request-data and response-data calls (non-empty chunks, chunks spanning message boundaries
-        on both sides) whose request chunks concatenate to the n requests and whose response chunks concatenate to the n responses, and which is LEGAL:
-        pk_legal (a computable boolean) -- no byte of response i is offered before the parser has seen request i completely (a request chunk ended exactly at
-        the end of request i, or the first line of request i+1 has been offered up to its LF). Then exactly n transactions, the i-th reporting request i and
-        response i. pk_legal implies byte-level legality pk_blegal (theorem); the byte-legal histories it does not cover -- response i offered while a
-        fragment of the NEXT request's first line is buffered behind request i -- evaluate to the same transactions (Examples in PPairCb.v) but are
-        not covered by the proof. pk_noexp: no request carries an Expect field (the 4xx-after-Expect branch touches the request side: proof artefact).
-        Legality cannot be dropped: Example pk_ex_illegal (response before its request: four transactions, mis-paired). ---- *)
+        on both sides) whose request chunks concatenate to the n requests and whose response chunks concatenate to the n responses, and which is LEGAL at the
+        level of BYTES: pk_blegal (a computable boolean) -- no byte of response i is offered before the last byte of request i. Then exactly n transactions,
+        the i-th reporting request i and response i -- including the histories in which response i is parsed while request i still sits in REQ_FINALIZE
+        with a fragment of the next request line buffered behind it. pk_noexp: no request carries an Expect field (the 4xx-after-Expect branch touches the
+        request side: proof artefact). Legality cannot be dropped: Example pk_ex_illegal in PPairCb.v (a response before its request: four transactions,
+        mis-paired). ---- *)
 Require Import Htp.Proof.PPairCa Htp.Proof.PPairCb.
 Theorem C04_pairing_interleaved : forall cb g (xl : list pp_xc) (ops : list cp_op),
   wr_all_ok cb -> g_allow_space_uri g = false -> g_tx_auto_destroy g = false -> (g_max_tx g = 0 \/ length xl < g_max_tx g)%nat ->
   forallb (pp_xc_ok g) xl = true -> forallb pk_noexp xl = true -> Forall pp_plain xl ->
   pk_data_ok ops = true -> concat (pk_reqs ops) = pp_ex_qwire xl -> concat (pk_ress ops) = pp_ex_swire xl ->
-  pk_legal xl ops = true -> pp_f1_free xl (pk_ress ops) = true ->
+  pk_blegal xl ops = true -> pp_f1_free xl (pk_ress ops) = true ->
   Forall2 (fun slot x => exists t, slot = Some t /\ wr_reported (sg_mask t) (xq x) /\ sr_reported t (xs x) (xbody x))
           (c_txs (fst (cp_run cb g connp_new (OpOpen :: ops)))) xl.
-Proof. exact pp_pairing_interleaved_reported. Qed.
+Proof. exact pp_pairing_interleaved_bytes_reported. Qed.
 Print Assumptions C04_pairing_interleaved.
 (* strictly sequential delivery (request i complete in any chunking, then response i complete in any chunking, i = 0, 1, ...): always legal *)
 Theorem C04_pairing_sequential : forall cb g (xl : list pp_xc) (chs : list (list bytes * list bytes)),
